@@ -445,6 +445,28 @@ def main():
                 spec_fail(sc, coarse(opn, call.name, "success-but-not-new"), "%s with %s at call %d (%s %s): op ret 0, close %s, but a fresh open does not see the new data" % (
                     sc.ops, en, k, call.name, call.p1, h["close"]), dict(extra, seen=v[:1200]))
 
+    # ---------------------------------------------------------------- deterministic replay of the double close (the plain build only sometimes aborts)
+    sc0 = next((sc for sc in good if sc.ops == ["enc:gzip:0"]), None)
+    if sc0 is not None:
+        kk = next((c.idx for c in sc0.calls if c.name == "write" and is_data_tmp(c.p1)), None)
+        try:
+            impl_a = vlib.build_impl("asan", "-DGD_VERIF_BUFFER_SIZE=64")
+            exe_a = vlib.build_harness(impl_a, os.path.join(vlib.VERIF, "harness/C14/rep.c"))
+        except vlib.BuildError as e:
+            exe_a = None
+            chk.notes.append("asan build failed: " + str(e)[:200])
+        if exe_a and kk is not None:
+            w = sc0.work("asan")
+            rc, out = vlib.sh([shim, "-r", w, "-f", "%d:28" % kk, "--", exe_a, "run", os.path.join(w, "df")] + sc0.ops,
+                              timeout=120, env={"ASAN_OPTIONS": "detect_leaks=0:abort_on_error=0"})
+            chk.cov["evaluations"] += 1
+            if "AddressSanitizer" in out and ("double-free" in out or "heap-use-after-free" in out):
+                m = re.search(r"ERROR: AddressSanitizer: ([^\n]*)", out)
+                known_hit(sc0, K_DFREE, "%s: write on the gzip temporary file fails with ENOSPC -> %s (ASan build)" % (sc0.ops, m.group(1)[:120] if m else "memory error"),
+                          {"fault": {"call_index": kk, "errno": "ENOSPC"}, "asan": out[out.find("ERROR: AddressSanitizer"):][:1500]})
+            elif rc not in (0,) and "AddressSanitizer" in out:
+                spec_fail(sc0, "enc/fail-write/crash", "ASan replay of a failing temp-file write: " + out[-400:], {})
+
     # ---------------------------------------------------------------- known: out-of-place write, read through the same handle, close
     w = os.path.join(base, "oopread"); os.makedirs(w); make_template(os.path.join(w, "p"), "gzip")
     v0 = view(os.path.join(w, "p"))
